@@ -564,8 +564,9 @@ def main():
   # ---- TLC: model checking + export, all families in parallel
   fams = THOROUGH_S if thorough else QUICK_S
   with cf.ThreadPoolExecutor(max_workers=3) as ex:   # more parallel JVMs scale negatively on this box
-    fc = ex.submit(c_family, "conds", 2 if thorough else 1, 3)
-    fc2 = ex.submit(c_family, "conds-d2", 2, 2) if not thorough else None
+    # (pool depth 2 with 3 arguments exceeds TLC's set-size limit: both tiers use d1/a3 and d2/a2)
+    fc = ex.submit(c_family, "conds", 1, 3)
+    fc2 = ex.submit(c_family, "conds-d2", 2, 2)
     fs = [ex.submit(s_family, label, steps, kw) for label, steps, kw in fams]
     sims = [
         ex.submit(s_simulate, "sim-all-ops", 12, 20000 if thorough else 800, run.seed * 10 + 1, dict()),
